@@ -50,6 +50,8 @@ def loop_contract():
                     ge("counter_nonneg", g["count"]),
                     eq("displacement_in_range_of_cov_times_JT", ind * (s.x - mean + cholesky @ (cholesky.T @ (J.T @ z))), 0.0),
                     eq("increment_is_last_increment", ind * (s.dx - (s.x - g["xprev"])), 0.0),
+                    holds("before_the_first_iteration_the_increment_does_not_look_converged", jnp.logical_or(g["count"] >= 1.0, jnp.sum(s.dx * s.dx) > tol * tol * D)),
+                    eq("before_the_first_iteration_the_iterate_is_the_start", (1.0 - ind) * (s.x - x0), 0.0),
                     eq("last_linearisation_used_the_constraint_value", g["fprev"], c(g["xprev"])),
                 ]
 
@@ -80,7 +82,8 @@ def loop_contract():
         ind = jnp.where(g["count"] >= 1.0, 1.0, 0.0)
         sq = lambda k: jnp.sqrt(jnp.asarray(float(k)))
         return [
-            holds("exit_is_justified", jnp.logical_or(jnp.logical_or(nf <= tol * sq(m), iters >= maxiter), nd <= tol * sq(D))),
+            # the "no more progress" exit is only a justification once an iteration has actually been taken
+            holds("exit_is_justified", jnp.logical_or(jnp.logical_or(nf <= tol * sq(m), iters >= maxiter), jnp.logical_and(g["count"] >= 1.0, nd <= tol * sq(D)))),
             eq("reported_residual_is_constraint_at_returned_point", fc, c(x)),
             eq("reported_iteration_count", iters, g["count"]),
             eq("last_linearisation_point_value", gfprev, c(gxprev)),
@@ -96,8 +99,11 @@ def loop_contract():
             out.append(Instance(f"D={D},m={m}", make, positive=lambda a, k: [a[3]], names=lambda a, k: {id(a[0]): "x0", id(a[1]): "mean", id(a[2]): "L", id(a[3]): "tol"}))
         return out
 
+    def requires(x0, mean, cholesky, tol, *, D, m, maxiter):
+        return [gt("tolerance_below_one(the initial unit increment must not look converged)", 1.0 - tol)]
+
     return Contract(name=f"{MOD}:lstsq_constrained_gauss_newton.__call__[loop]", module=MOD, qualname="lstsq_constrained_gauss_newton.__call__",
-                    wrap=lambda target: wrap(target), ensures=ensures, instances=instances,
+                    wrap=lambda target: wrap(target), ensures=ensures, requires=requires, instances=instances,
                     doc="loop rule: exit justified by one of the three documented reasons; truthful stats; displacement in range(L L^T J^T) also for singular L")
 
 
